@@ -11,14 +11,14 @@ def sh(cmd, cwd=None, timeout=3600):
 
 def confirm(wt, sid, prop):
     out = {}
-    rc, o = sh('cargo test --offline --test zz_demo 2>&1 | grep -E "^test result"', wt)
+    rc, o = sh('cargo test --offline --test zz_demo 2>&1 | grep -a -E "^test result"', wt)
     out['demo_with_change'] = o.strip()
     sh('cp patch.diff /tmp/zz_patch_%s.diff && git apply -R /tmp/zz_patch_%s.diff' % (sid, sid), wt)
-    rc, o = sh('cargo test --offline --test zz_demo 2>&1 | grep -E "^test result"', wt)
+    rc, o = sh('cargo test --offline --test zz_demo 2>&1 | grep -a -E "^test result"', wt)
     out['demo_without_change'] = o.strip()
     sh('git apply /tmp/zz_patch_%s.diff' % sid, wt)
     sh('mkdir -p /tmp/zz_aside && mv tests/zz_demo.rs /tmp/zz_aside/%s.rs' % sid, wt)
-    rc, o = sh('cargo test --workspace --offline --no-fail-fast 2>&1 | grep -E "^test result" | awk \'{p+=$4; f+=$6} END {print "passed",p,"failed",f}\'', wt)
+    rc, o = sh('cargo test --workspace --offline --no-fail-fast 2>&1 | grep -a -E "^test result" | awk \'{p+=$4; f+=$6} END {print "passed",p,"failed",f}\'', wt)
     out['suite_with_change'] = o.strip()
     sh('mv /tmp/zz_aside/%s.rs tests/zz_demo.rs' % sid, wt)
     d = os.path.join(VERIF, 'seeded', sid)
